@@ -74,6 +74,8 @@ def rand_exec(rng, nops):
             cands += ["clear", "swap", "copy", "assign"]
             if size[1] + size[2] <= 12:
                 cands += ["appendall", "prependall", "insertall"]
+            if n <= 6 and rng.random() < 0.2:         # the list itself as the argument (a bulk operation like any other)
+                cands = ["appendself", "prependself", "insertself", "insertself", "assignself"]
         elif K == "array":
             cands = ["append"] * 6 + ["appendn"] if grow else []
             cands += ["rmat"] * 3 + ["rmidx"] * 3 + ["rmfront", "rmback", "find", "find", "front", "back"]
@@ -136,6 +138,10 @@ def rand_exec(rng, nops):
             ops.append("%s %d 0 0" % (op, i)); size[i] += size[3 - i]
         elif op == "insertall":
             ops.append("insertall %d 0 %d" % (i, pos)); size[i] += size[3 - i]
+        elif op in ("appendself", "prependself", "insertself", "assignself"):
+            ops.append("%s %d 0 %d" % (op, i, pos))
+            if op != "assignself":
+                size[i] *= 2
         if size[i] is None:
             # rmval: the generator does not know whether the value was present; re-learn the size conservatively
             size[i] = max(0, n - 1)
